@@ -163,7 +163,7 @@ def classify(kind, canonical, exp, ok, out, base):
         return "ok", ""
     if canonical:
         return "failing", "canonical encoding of an in-type value was rejected"
-    if kind in ("call", "mem", "ret", "memnt", "retd", "kw0", "kw1", "kw2", "ctorx"):
+    if kind in ("call", "mem", "ret", "memnt", "retd", "kw0", "kw1", "kw2", "ctorx", "retx", "retdx", "retnx", "rawdec"):
         return "corr", "model accepts this non-canonical input but the contract reverts"
     return "ok", ""   # constructor arguments: one-directional check only
 
@@ -287,6 +287,7 @@ def run(ctx):
     # ---- phase 2: expectations for the corruption stream
     sel_of = {}
     exprs, corr, agree_exprs, nt_exprs, kw_exprs, kw_corr, retd_exprs = [], [], [], [], [], [], []
+    retx_exprs, ret_corr, xvs = [], [], []
 
     def used(kind, j):
         # (truncations/extensions come first in the corruption list: all of the first 24 go to every entry point)
@@ -319,6 +320,19 @@ def run(ctx):
                 (tfull, f"[{cvv}; VInt 200; VBytes [170;187;204]]", "[]")]):
             kw_exprs.append(f"let tp := {tp} in let base := enc tp (VList {vp}) in "
                             f"join (expect_kw tp {tfull} {dfl} [1;2;3;4] base (enc {tfull} (VList ({vp} ++ {dfl}))) {kcl})")
+        # returndata classes with the caller's own argument (a valid-looking payload) left in the call buffer
+        xv = A.gen_value(r, t, "max")
+        xvs.append(xv)
+        nwb0 = len(base) // 32
+        rcs = [c for c in cs if c[0].startswith(("CT", "CX"))][:40]
+        for wi in sorted(set([0, min(1, nwb0 - 1), nwb0 - 1])):
+            for x in (len(base), max(len(base) - 32, 0), 2 ** 256 - 32, 32, 0, 64):
+                rcs.append((f"CW {wi} {hex(x)}", lambda b, wi=wi, x=x: b[:32 * wi] + x.to_bytes(32, "big") + b[32 * wi + 32:]))
+        ret_corr.append(rcs)
+        rcl = "[" + "; ".join(c for c, _ in rcs) + "]"
+        retx_exprs.append(pre + f"join (expect_ret t base {rcl})")
+        retx_exprs.append(pre + f"join (expect_retd t (VList [{A.coq_val(t, xv)}]) base {rcl})")
+        retx_exprs.append(pre + f"join (expect_mem t base {rcl})")
         lit = H.scalar_literal(t, None)
         if lit is not None:
             retd_exprs.append(pre + f"join (expect_retd t (VList [{A.coq_val(t, lit[1])}]) base {lst('ret')})")
@@ -336,6 +350,7 @@ def run(ctx):
     outs = A.coq_strings(exprs, "c05exp", imports=IMPORTS, shard=10, timeout=400)
     ctx.log(f"coq expectations: {len(exprs)} expressions in {time.time() - t0:.1f}s")
     kw_outs = A.coq_strings(kw_exprs, "c05kw", imports=IMPORTS, shard=12, timeout=400)
+    rx_outs = A.coq_strings(retx_exprs, "c05rx", imports=IMPORTS, shard=12, timeout=400)
     rd_idx = [i for i, e in enumerate(retd_exprs) if e is not None]
     rd_outs = dict(zip(rd_idx, A.coq_strings([retd_exprs[i] for i in rd_idx], "c05rd", imports=IMPORTS, shard=10))) if rd_idx else {}
     nt_idx = [i for i, e in enumerate(nt_exprs) if e is not None]
@@ -399,6 +414,19 @@ def run(ctx):
                 if used("ctor", j) and not any(data[i] >= 0x80 for i in range(0, len(data), 32)):
                     ins.append(("ctor", data))
                     ms.append(("ctor", cterm, lenient, data))
+            # returndata with stale valid-looking call buffer: plain, default_return_value, skip_contract_check, raw_call
+            e_rx = rx_outs[3 * k].split(",")
+            e_rdx = rx_outs[3 * k + 1].split(",")
+            e_raw = rx_outs[3 * k + 2].split(",")
+            assert len(e_rx) == len(ret_corr[k]) == len(e_rdx) == len(e_raw)
+            xfull = A.py_enc(("tuple", (t,)), [xvs[k]], 0)
+            for j2, (cterm, fn) in enumerate(ret_corr[k]):
+                data = fn(base)
+                ins.append(("retx", data)); ms.append(("retx", cterm, e_rx[j2], data))
+                ins.append(("retdx", data)); ms.append(("retdx", cterm, e_rdx[j2], data))
+                if j2 % 2 == 0:
+                    ins.append(("retnx", data)); ms.append(("retnx", cterm, e_rx[j2], data))
+                    ins.append(("rawdec", data)); ms.append(("rawdec", cterm, e_raw[j2], data))
             # constructor arguments, EXACT (expectation computed afterwards from the real init code of each build)
             nwb = len(base) // 32
             cx = [c for c in cs if c[0].startswith(("CT", "CX"))][:14]
@@ -430,7 +458,7 @@ def run(ctx):
         from vlib.c06_exits import selector, sig
         kwsel = [selector(sig("kw", [t])), selector(sig("kw", [t, ("uint", 8)])), selector(sig("kw", [t, ("uint", 8), ("bytes", 4)]))]
         for cfg in chosen:
-            jobs.append((src, cfg, bl, inputs, kwsel))
+            jobs.append((src, cfg, bl, inputs, kwsel, t, [xvs[k0 + i] for i in range(len(vals))]))
             jm.append((t, vals, src, cfg, metas, bl, kwsel, k0))
     t0 = time.time()
     with ProcessPoolExecutor(max_workers=4) as ex:
@@ -480,6 +508,10 @@ def run(ctx):
                     continue
                 how = {"call": "call echo(x) with calldata = selector ++ input", "len": "call ln(x) with calldata = selector ++ input", "mem": "call dec(b) with b = input (abi_decode)", "memnt": "call dec_nt(b) with b = input (abi_decode, unwrap_tuple=False)",
                        "retd": "viaret_d(a): callee returns input; default_return_value used when returndata is empty",
+                       "retx": "viaret_x(a, x): callee returns input; the argument x (canonical, != value) stays in the call buffer",
+                       "retdx": "viaret_dx(a, x): as retx with default_return_value=x",
+                       "retnx": "viaret_nx(a, x): extcall with skip_contract_check=True",
+                       "rawdec": "rawdec(a): raw_call(a, max_outsize) then abi_decode of the returned bytes",
                        "kw0": "call kw(x) entry point with selector ++ input", "kw1": "call kw(x,b) entry point with selector ++ input",
                        "kw2": "call kw(x,b,c) entry point with selector ++ input",
                        "ctor": "deploy initcode ++ input, then call get()", "ret": "viaret(a): callee a returns input as returndata"}[kind]
